@@ -200,9 +200,16 @@ Definition tg_tls_close (s : tg_sess) : tg_sess * list tg_out :=
 
 (* coap_session_disconnected_lkd (reason other than ICMP) *)
 Definition tg_disconnected (s : tg_sess) (reason : Z) : tg_sess * list tg_out :=
-  let first := match ts_sendq s with m :: _ => [ONack (tm_id m) reason] | [] => [] end in
+  (* "take the first one": reported here only if coap_cancel_session_messages below will not
+     report it (i.e. it is not Confirmable); it counts as reported either way (sent_nack) *)
+  let first := match ts_sendq s with
+               | m :: _ => if tm_con m then [] else [ONack (tm_id m) reason]
+               | [] => [] end in
   let dqn := map (fun m => ONack (tm_id m) reason) (tg_cons (ts_delayq s)) in
-  let sent := match first ++ dqn with [] => false | _ => true end in
+  let sent := match ts_sendq s with
+              | _ :: _ => true
+              | [] => match dqn with [] => false | _ => true end
+              end in
   let anon := if sent then [] else [ONackAnon reason] in
   let cancel := map (fun m => ONack (tm_id m) reason) (tg_cons (ts_sendq s)) in
   let s1 := tg_set_state s (match ts_proto s with TgUdp => TgEstablished | TgDtls => TgNone end) in
@@ -499,6 +506,30 @@ Fixpoint tg_accepts (s : tg_sess) (tr : list (tg_ev * list tg_out)) : bool :=
   | (e, o) :: r =>
       let '(s1, o1) := tg_step s e in
       tg_outs_eqb o1 o && tg_accepts s1 r
+  end.
+
+(* the same with white-box snapshots of the implementation's session object after some steps:
+   state, type, ids in the delay queue, ids of its Confirmables in the send queue, con_active,
+   tls != NULL *)
+Definition tg_state_num (x : tg_state) : Z :=
+  match x with TgNone => 0 | TgConnecting => 1 | TgHandshake => 2 | TgCsm => 3 | TgEstablished => 4 end.
+Definition tg_type_num (x : tg_type) : Z :=
+  match x with TgClient => 1 | TgServer => 2 | TgHello => 3 end.
+Record tg_snap := { sn_state : Z; sn_type : Z; sn_dq : list Z; sn_sq : list Z; sn_ca : Z; sn_tls : bool }.
+Definition tg_zlist_eqb (a b : list Z) : bool :=
+  (len a =? len b) && forallb (fun p => fst p =? snd p) (combine a b).
+Definition tg_snap_ok (s : tg_sess) (n : tg_snap) : bool :=
+  (tg_state_num (ts_state s) =? sn_state n) && (tg_type_num (ts_type s) =? sn_type n) &&
+  tg_zlist_eqb (tg_ids (ts_delayq s)) (sn_dq n) && tg_zlist_eqb (tg_ids (ts_sendq s)) (sn_sq n) &&
+  (ts_con_active s =? sn_ca n) && Bool.eqb (ts_tls s) (sn_tls n) && negb (ts_freed s).
+
+Fixpoint tg_accepts_snap (s : tg_sess) (tr : list (tg_ev * list tg_out * option tg_snap)) : bool :=
+  match tr with
+  | [] => true
+  | (e, o, n) :: r =>
+      let '(s1, o1) := tg_step s e in
+      tg_outs_eqb o1 o && (match n with None => true | Some x => tg_snap_ok s1 x end)
+      && tg_accepts_snap s1 r
   end.
 
 End Model.
